@@ -28,6 +28,7 @@ func init() {
 	fw.RegisterChild("c16file", fileChild)
 }
 
+const maxInput = 32 << 20  // MaxRecvMsgSize / pgsql MaxMsgSize: the largest input a peer can deliver
 const allocLimit = 256 << 20 // eight times the largest message bound the system declares (32 MiB)
 var asLimit = int64(2560 << 20) // address-space limit of a child: an allocation of about 1 GiB or more ends as a countable out-of-memory exit
 
@@ -423,6 +424,11 @@ func pureChild(setup []byte, scratch string) func(i int, data []byte) []byte {
 				out.Skipped++
 				continue
 			}
+			if len(in) > maxInput {
+				// larger than any message the system accepts: the 256 MiB limit says nothing about it
+				out.Counts[class+"|oversize-input-not-fed"]++
+				continue
+			}
 			r := fw.NewRand(ps.co.Seed, fmt.Sprintf("c16/drv/%s/%d", b.EP, idx))
 			mk.set(idx)
 			res := measure(func() error { return drv(in, r) })
@@ -586,6 +592,26 @@ func parkedOnLock(dump string) bool {
 	return strings.Contains(line, "[sync.Mutex.Lock") || strings.Contains(line, "[sync.RWMutex") || strings.Contains(line, "[semacquire")
 }
 
+// mainRunning: the main goroutine of the dump is executing (not blocked on anything).
+func mainRunning(dump string) bool {
+	i := strings.Index(dump, "\ngoroutine 1 ")
+	if i < 0 {
+		return false
+	}
+	line := dump[i+1:]
+	if j := strings.Index(line, "\n"); j >= 0 {
+		line = line[:j]
+	}
+	return strings.Contains(line, "[running") || strings.Contains(line, "[runnable")
+}
+
+func trunc(s string, n int) string {
+	if len(s) > n {
+		return s[:n] + "…"
+	}
+	return s
+}
+
 // hangSig names the immudb function in which the main goroutine is parked.
 func hangSig(ep, dump string) string {
 	i := strings.Index(dump, "\ngoroutine 1 ")
@@ -670,10 +696,10 @@ func runConfirm(c *fw.Ctx, setup []byte, reqs []confirmReq) {
 				}
 				c.Eval(1)
 				violate(c, sig, fmt.Sprintf("entry point %s input #%d: the child process died on this input when re-run alone\n%s", rq.B.EP, rq.B.From, firstLines(r.Text, 30)), map[string][]byte{"case.json": d, "stderr.txt": []byte(r.Text)})
-			case r.TimedOut && name != "c16pure" && !parkedOnLock(r.Text):
+			case r.TimedOut && name != "c16pure" && !parkedOnLock(r.Text) && !mainRunning(r.Text):
 				// a multi-goroutine component waiting on a channel / condition may be waiting for
 				// another goroutine that cannot progress on corrupted data: not decidable from here
-				c.Inconclusive(fmt.Sprintf("%s: %s still waiting (not on a mutex) after 60 s when re-run alone: %s", name, rq.B.EP, hangSig(rq.B.EP, r.Text)))
+				c.Inconclusive(fmt.Sprintf("%s: %s still waiting (neither on a mutex nor executing) after 60 s when re-run alone: %s; case %s", name, rq.B.EP, hangSig(rq.B.EP, r.Text), trunc(string(d), 300)))
 			case r.TimedOut:
 				c.Eval(1)
 				violate(c, hangSig(rq.B.EP, r.Text), fmt.Sprintf("entry point %s input #%d: still running after 60 s when re-run alone in an idle child\n%s", rq.B.EP, rq.B.From, firstLines(r.Text, 40)), map[string][]byte{"case.json": d, "stderr.txt": []byte(r.Text)})
